@@ -14,6 +14,9 @@ open Go Model.Codec
 /-- `recordBatchOverhead` (record_batch.go) is the model's 49 = bytes between the length prefix and the records -/
 theorem recordBatchOverhead_eq : Gen.C09.recordBatchOverhead = (Model.Codec.recordBatchOverhead : Int) := by decide
 
+/-- `maximumRecordOverhead` (record.go): 5·MaxVarintLen32 + MaxVarintLen64 + 1 -/
+theorem maximumRecordOverhead_eq : Gen.C09.maximumRecordOverhead = (Model.Codec.maximumRecordOverhead : Int) := by decide
+
 /-- `magicOffset` (records.go): the byte `recordsKind` / `decSet` look at -/
 theorem magicOffset_eq : Gen.C09.magicOffset = 16 ∧
     (∀ bs : Bytes, recordsKind bs =
@@ -130,16 +133,15 @@ theorem compactArrayLength_err (n err nilErr rem off rawLen eIns : Int) (h : err
 
 /-- the plausibility guards of `getArrayLength` after the int32 was read: the count must not exceed the
     remaining bytes nor 2·MaxUint16, and must not be below −1 – exactly the conditions of the model's
-    `getArrayLength` (`maxU16` is math.MaxUint16 = 65535; error values are opaque) -/
+    `getArrayLength` (math.MaxUint16 is evaluated by the translator; error values are opaque) -/
 theorem arrayLengthGuard_eq (bs : Bytes) (n : Int) (rest : Bytes) (off rawLen eIns eInv nilErr : Int)
     (hg : getInt 4 bs = some (n, rest)) :
-    Gen.C09.arrayLengthGuard n rest.length off rawLen 65535 eIns eInv nilErr =
+    Gen.C09.arrayLengthGuard n rest.length off rawLen eIns eInv nilErr =
       (match getArrayLength bs with
        | some (m, _) => (m, nilErr, off)
        | none => if n > rest.length then (-1, eIns, rawLen) else (-1, eInv, off)) := by
-  have e : mul64 2 65535 = 131070 := by decide
   unfold getArrayLength Gen.C09.arrayLengthGuard
-  simp only [hg, e]
+  simp only [hg, show (2 : Int) * 65535 = 131070 by decide]
   by_cases h1 : n > (rest.length : Int)
   · simp only [h1, ↓reduceIte]
   · by_cases h2 : n > 131070 ∨ n < -1
